@@ -869,6 +869,10 @@ def _final_checks(eng):
                 sig += f":{waiting_on}"
             prop = "C09" if (m.spec["toks"] and not bad and _deps_satisfied(eng, m)) else "C06"
             eng.viol(prop, sig, f"job {j} is {job.state.name} at quiescence (history {hist}); model: exits {m.exits}, upstream {m.ups}, tokens {m.spec['toks']}")
+            if m.ups and not m.spec["toks"]:
+                # dependency bookkeeping only: a dependent of a failed job that is never cancelled,
+                # or a job that never runs although everything it depends on succeeded
+                eng.viol("C07", "dependent-never-cancelled" if bad else "job-never-runs-after-dependencies-succeeded", f"job {j} (upstream {m.ups}, failed ancestors {sorted(bad)}) is still {job.state.name} at quiescence (history {hist})")
             if prop == "C09":
                 eng.viol("C06", sig, f"job {j} never reaches a final state: {job.state.name} at quiescence (history {hist})")
             continue
